@@ -128,7 +128,10 @@ ErrRec(e) ==
      hint   |-> FirstV(e.layers, "hint", ""),
      detail |-> FirstV(e.layers, "detail", ""),
      cons   |-> FirstV(e.layers, "cons", ""),
-     file   |-> s.file, line |-> s.line, fn |-> s.fn]
+     file   |-> s.file, line |-> s.line, fn |-> s.fn,
+     \* a source location is sent as a whole (all three fields, empty or not) exactly when one was set; the
+     \* message field is always there, whatever the text
+     src    |-> IF s.has THEN "all" ELSE "none", hasmsg |-> TRUE]
 
 \* The ErrorResponse for a nil error: an internal fatal error.
 ErrRecNil == [t |-> "E", wf |-> TRUE, dup |-> FALSE, sev |-> "FATAL", code |-> "XX000",
